@@ -277,13 +277,16 @@ Fixpoint refresh (answer : Z -> outcome) (attempts : nat) (c : cands) (tried : l
    The loop tests it before asking each candidate (only when there is one: `broker != nil && !pastDeadline(0)`);
    `retry` tests it before sleeping and trying again. *)
 Inductive pstop :=
-| PAnswer (r : rresult)   (* a candidate answered / failed authentication *)
+| PAnswer (r : rresult)   (* a candidate answered (all leaders known) / failed authentication *)
+| PRetry (b : Z)          (* candidate b answered, the response was applied, but a partition is leaderless:
+                             updateMetadata asks for a retry (`return retry(err)` with err = nil) *)
 | PNoBroker               (* `any` found nobody: out of brokers *)
 | PDeadline.              (* a candidate is left but the deadline has passed *)
 
 Definition pop_dl (dl : list bool) : bool * list bool := match dl with [] => (false, []) | b :: r => (b, r) end.
 
-Fixpoint pass_d (answer : Z -> outcome) (fuel : nat) (c : cands) (tried : list Z) (dl : list bool)
+(* [ll b]: candidate b's answer contains a leaderless partition *)
+Fixpoint pass_d (answer : Z -> outcome) (ll : Z -> bool) (fuel : nat) (c : cands) (tried : list Z) (dl : list bool)
   : cands * pstop * list Z * list bool :=
   match fuel with
   | O => (c, PNoBroker, tried, dl)
@@ -294,20 +297,31 @@ Fixpoint pass_d (answer : Z -> outcome) (fuel : nat) (c : cands) (tried : list Z
       let '(past, dl1) := pop_dl dl in
       if past then (c, PDeadline, tried, dl1) else
       match answer b with
-      | Answers => (c, PAnswer (RSuccess b), tried ++ [b], dl1)
+      | Answers => (c, (if ll b then PRetry b else PAnswer (RSuccess b)), tried ++ [b], dl1)
       | AuthFails => (c, PAnswer (RAuth b), tried ++ [b], dl1)
-      | Fails => pass_d answer f (deregister c b) (tried ++ [b]) dl1
+      | Fails => pass_d answer ll f (deregister c b) (tried ++ [b]) dl1
       end
     end
   end.
 
-(* the two give-up exits of tryRefreshMetadata: with a candidate left (deadline) nothing is resurrected; with
-   nobody left the seeds set aside are resurrected; both then go through `retry` *)
-Fixpoint refresh_d (answer : Z -> outcome) (attempts : nat) (c : cands) (tried : list Z) (dl : list bool)
-  : cands * rresult * list Z * list bool :=
-  let '(c1, st, tr, dl1) := pass_d answer (S (size c)) c tried dl in
+(* tryRefreshMetadata. Exits: an answer; a leaderless answer once the retries are used up (or the deadline
+   forbids another one) — the call then returns nil; the two give-up exits: with a candidate left (deadline)
+   nothing is resurrected, with nobody left the seeds set aside are resurrected (live ++ dead, as the code
+   appends); all retries go through `retry`. A retry after a leaderless answer re-enters with the candidate
+   lists as they are — the live seeds stay — and with the brokers [adv] the applied response advertised. *)
+Fixpoint refresh_d (answer : Z -> outcome) (ll : Z -> bool) (adv : list Z) (attempts : nat) (c : cands)
+         (tried : list Z) (dl : list bool) : cands * rresult * list Z * list bool :=
+  let '(c1, st, tr, dl1) := pass_d answer ll (S (size c)) c tried dl in
   match st with
   | PAnswer x => (c1, x, tr, dl1)
+  | PRetry b =>
+    match attempts with
+    | O => (c1, RSuccess b, tr, dl1)
+    | S a =>
+      let '(past, dl2) := pop_dl dl1 in
+      if past then (c1, RSuccess b, tr, dl2)
+      else refresh_d answer ll adv a {| seeds := seeds c1; dead := dead c1; known := adv |} tr dl2
+    end
   | _ =>
     let c2 := match st with PDeadline => c1 | _ => resurrect c1 end in
     match attempts with
@@ -315,6 +329,6 @@ Fixpoint refresh_d (answer : Z -> outcome) (attempts : nat) (c : cands) (tried :
     | S a =>
       let '(past, dl2) := pop_dl dl1 in
       if past then (c2, ROutOfBrokers, tr, dl2)      (* "skipping last retries as we would go past the metadata timeout" *)
-      else refresh_d answer a c2 tr dl2
+      else refresh_d answer ll adv a c2 tr dl2
     end
   end.
